@@ -1,8 +1,9 @@
-(* C18 [T2], towards the struct-list case of canonicalList (open): the element size computed by
-   canonicalList for a struct list is the specification's -- the maximum over the elements of the
-   truncated data and pointer section sizes (CanonSpec.pad_elems / max_len on the normalised
-   elements).  Not yet used by the induction (CanonMTop.Q_all covers void, primitive and pointer
-   lists); the remaining work is newCompositeList's tag word and one fillCanonicalStruct per element. *)
+(* C18 [T2]: canonicalList, the struct-list case.  elem_size_list: the element size computed for a
+   struct list is the specification's (maxima of the truncated data / pointer section sizes,
+   CanonSpec.pad_elems).  blocks_loop: the loop invariant for one fillCanonicalStruct per element.
+   list_comp_case: newCompositeList appends the tag word struct_word n dn pn and n zero blocks; each
+   element fills its block (possibly larger than its own truncated size = pad0 / padN) and appends
+   its children: exactly enc's LComp case. *)
 From CV Require Import Value.ValueEq Value.ValueEqProofs Value.EqualM Value.Den Value.DenFacts Value.DenLists
                        Value.CanonSpec Value.CanonProofs Value.CanonProofs2 Value.CanonProofs3 Value.CanonM Value.CanonMStruct
                        Value.CanonMWords Value.CanonMData Value.CanonMHeap Value.CanonMLoop Value.CanonSafe Value.EqualProofs
